@@ -76,6 +76,7 @@ fn main() {
         // the extraction stage of a property whose other stages are on the emitted crate: `lnv X04 ..`
         p if p.starts_with('X') => hirprops::run(&format!("C{}", &p[1..]), &tier, seed, &out),
         "C09" => detprops::run(&tier, seed, &out),
+        "T01" => totality::run(&tier, seed, &out),
         "K02" => compileprops::run_k02(&tier, seed, &out),
         "K16" => compileprops::run_k16(&tier, seed, &out),
         "K04" => compileprops::run_k04(&tier, seed, &out),
